@@ -861,7 +861,9 @@ fn gen_history(rng: &mut Rng, profile: &str, maxlen: u64) -> Vec<Op> {
     let mut r = Reference::new();
     let mut ops = Vec::with_capacity(n);
     // weights: insert get read set mut delete delprefix iter next deliter newgen normalize freeze thaw
-    let w: [u64; 14] = if profile == "c15" {
+    let w: [u64; 14] = if profile == "arena" {
+        [26, 12, 7, 7, 7, 16, 7, 0, 0, 0, 8, 8, 0, 0]
+    } else if profile == "c15" {
         [16, 5, 5, 4, 4, 12, 7, 14, 16, 6, 3, 3, 1, 1]
     } else {
         [24, 10, 6, 5, 5, 14, 5, 5, 8, 2, 5, 5, 3, 3]
@@ -922,7 +924,7 @@ fn gen_history(rng: &mut Rng, profile: &str, maxlen: u64) -> Vec<Op> {
         if abandoned && ops.len() < n {
             let follow = match rng.below(10) {
                 0..=5 => Some(Op::NewGen),
-                6 => Some(Op::Thaw(rng.below(6) as u8)),
+                6 if profile != "arena" => Some(Op::Thaw(rng.below(6) as u8)),
                 _ => None,
             };
             if let Some(f) = follow {
@@ -930,7 +932,7 @@ fn gen_history(rng: &mut Rng, profile: &str, maxlen: u64) -> Vec<Op> {
                 ops.push(f);
                 // and look at what the new checkpoint sees
                 if ops.len() + 2 < n && rng.chance(2, 3) {
-                    let g = if rng.chance(1, 2) { Op::Freeze } else { Op::Get(uni.key(rng)) };
+                    let g = if profile != "arena" && rng.chance(1, 2) { Op::Freeze } else { Op::Get(uni.key(rng)) };
                     r.step(&g);
                     ops.push(g);
                 }
@@ -968,6 +970,33 @@ fn emit(id: &str, ops: &[Op], stats: &mut BTreeMap<String, u64>) -> bool {
                            "persist_ok": o.persist_ok, "panic": o.panic, "len": ops.len()})
     );
     ok
+}
+
+/// Arena mode: the history runs on `MutableTrie` directly and every observation carries the sizes of
+/// the arena (nodes, entries, values, generations), so that the copy-on-write allocation behaviour
+/// is compared with the arena model (coq/Trie/Arena.v) operation by operation.
+fn emit_arena(id: &str, ops: &[Op]) {
+    let mut m = Machine::new(false);
+    let mut outs = Vec::new();
+    for op in ops {
+        let r = guarded(|| {
+            let got = m.step(op);
+            let (n, e, v, _b, g) = match &m.backend {
+                Backend::Trie(t) => t.verif_arena_sizes(),
+                Backend::Api(_) => (0, 0, 0, 0, 0),
+            };
+            format!("{}#{},{},{},{}", got, n, e, v, g)
+        });
+        match r {
+            Ok(s) => outs.push(s),
+            Err(_) => {
+                outs.push("PANIC".into());
+                break;
+            }
+        }
+    }
+    println!("A {} {}", id, ops.iter().map(|o| o.show()).collect::<Vec<_>>().join(";"));
+    println!("R {} {}", id, outs.join(";"));
 }
 
 // -------------------------------------------------------------------------------- prefix map mode
@@ -1196,6 +1225,25 @@ fn main() {
             inst::generate(seed, n);
         }
         "ireplay" => inst::replay(),
+        "arena" => {
+            let seed: u64 = args[2].parse().unwrap();
+            let n: u64 = args[3].parse().unwrap();
+            let mut rng = Rng::new(seed ^ 0xA4E);
+            for i in 0..n {
+                let ops = gen_history(&mut rng, "arena", 400);
+                emit_arena(&format!("t{}", i), &ops);
+            }
+        }
+        "areplay" => {
+            for line in std::io::stdin().lock().lines() {
+                let line = line.unwrap();
+                if let Some(rest) = line.strip_prefix("A ") {
+                    let (id, body) = rest.split_once(' ').unwrap_or((rest, ""));
+                    let ops: Vec<Op> = body.split(';').filter(|s| !s.is_empty()).map(Op::parse).collect();
+                    emit_arena(id, &ops);
+                }
+            }
+        }
         "stem" => {
             let seed: u64 = args[2].parse().unwrap();
             let n: u64 = args[3].parse().unwrap();
